@@ -307,6 +307,10 @@ def case_st(draw, model=None, seq=False):
     probes = [(draw(st.integers(0, N * d - 1)), draw(st.integers(0, N * d - 1))) for _ in range(3 if not seq else 1)]
     return {"base": model, "d": d, "K": K, "H": Hm, "lo": lo, "tri": tri, "pos_list": pos_list, "types": types,
             "ppp": ppp, "eps": eps, "sig": sig, "rc": rc, "masses": masses, "mmode": mmode, "steps": steps,
+            # the masses dictionary is looked up by type id: its insertion order carries no meaning (seeded C11-C took
+            # the t-th inserted value for type t) and it may hold types that do not occur in the system
+            "mass_order": list(draw(st.permutations(range(K)))) if draw(st.booleans()) else list(range(K)),
+            "mass_extra": draw(st.sampled_from([None, None, 7.5])),
             "shift": shift, "probes": probes, "images": bool(np.any(images)), "jf": jf, "species": species_tag,
             "pattern": pattern, "names": names, "nudges": nudges, "default_shift": draw(st.booleans())}
 
@@ -326,7 +330,9 @@ def interaction_params(case):
 def make_hessian(case):
     cell = {"H": case["H"], "lo": case["lo"], "kind": "tri" if case["tri"] else "ortho"}
     snap = snapshot_from(cell, case["pos_list"][0].copy(), case["types"])
-    masses = {k + 1: float(m) for k, m in enumerate(case["masses"])}
+    masses = {k + 1: float(case["masses"][k]) for k in case.get("mass_order", range(len(case["masses"])))}
+    if case.get("mass_extra"):
+        masses[len(case["masses"]) + 1] = float(case["mass_extra"])      # a species the system does not contain
     kw = dict(snapshot=snap, masses=masses, epsilons=case["eps"].copy(), sigmas=case["sig"].copy(),
               r_cuts=case["rc"].copy(), ppp=case["ppp"].copy())
     if not (case["shift"] and case["default_shift"]):
@@ -464,7 +470,9 @@ def _one_call(case, h, snap, written):
     lam_ref = np.linalg.eigvalsh(Dref)
     tags = [f"d{d}", f"K{case['K']}", "shift-on" if case["shift"] else "shift-off",
             "mask-full" if case["ppp"].all() else "mask-partial", "cell-tri" if case["tri"] else "cell-ortho",
-            "mass-" + case["mmode"], "files-" + files, "images" if case["images"] else "in-box",
+            "mass-" + case["mmode"], "files-" + files,
+            "mass-dict-unordered" if case.get("mass_order", []) != sorted(case.get("mass_order", [])) else "mass-dict-ordered",
+            "mass-dict-extra-key" if case.get("mass_extra") else "mass-dict-exact", "images" if case["images"] else "in-box",
             "lattice-exact" if case["jf"] == 0 else "jittered", case["species"],
             "N<=3" if N <= 3 else "N>=4"]
     extra = {"interacting_pairs": int(len(ref.r_in)), "nudged_cutoffs": int(case["nudges"])}
